@@ -110,7 +110,7 @@ func (f *frame) callFunction(callee *ssa.Function, bindings, args []Val, argVals
 		// a contract written next to the function under verification (same
 		// package directory) takes precedence over the built-in model - this is
 		// how a package attaches lock invariants to sync.Mutex operations
-		if spec := vc.Eng.Spec.Funcs[name]; spec != nil && len(bindings) == 0 && vc.specIsLocal(spec) {
+		if spec := vc.Eng.Spec.Funcs[name]; spec != nil && len(bindings) == 0 && vc.specIsLocal(spec) && vc.specAppliesHere(spec) {
 			return f.contractCall(callee, spec, args, in, st, site)
 		}
 		if v, handled := h(f, callee, args, in, st, site); handled {
@@ -417,6 +417,14 @@ func escapes(a *ssa.Alloc) bool {
 				if rec(u) {
 					return true
 				}
+			case *ssa.MakeClosure:
+				// captured by a closure that is only deferred or called directly by
+				// this function (never stored, passed on or returned): the cell is
+				// reachable from this function's own code only, provided the closure
+				// body does not leak it either
+				if closureLeaks(u) {
+					return true
+				}
 			default:
 				return true
 			}
@@ -424,6 +432,57 @@ func escapes(a *ssa.Alloc) bool {
 		return false
 	}
 	return rec(a)
+}
+
+// closureLeaks: is the closure value used for anything but `defer c()` / `c()`
+// in the function that creates it, or does its body let a captured cell escape?
+func closureLeaks(mc *ssa.MakeClosure) bool {
+	refs := mc.Referrers()
+	if refs == nil {
+		return true
+	}
+	for _, r := range *refs {
+		switch u := r.(type) {
+		case *ssa.DebugRef:
+		case *ssa.Defer:
+			if u.Call.Value != mc {
+				return true
+			}
+		case *ssa.Call:
+			if u.Call.Value != mc {
+				return true
+			}
+		default:
+			return true
+		}
+	}
+	fn, ok := mc.Fn.(*ssa.Function)
+	if !ok {
+		return true
+	}
+	// inside the closure the captured cells may only be loaded from / stored to
+	for _, fv := range fn.FreeVars {
+		frefs := fv.Referrers()
+		if frefs == nil {
+			continue
+		}
+		for _, r := range *frefs {
+			switch u := r.(type) {
+			case *ssa.DebugRef:
+			case *ssa.UnOp:
+			case *ssa.Store:
+				if u.Val == ssa.Value(fv) {
+					return true
+				}
+			case *ssa.FieldAddr, *ssa.IndexAddr:
+				// address of a part of the captured variable: conservatively a leak
+				return true
+			default:
+				return true
+			}
+		}
+	}
+	return false
 }
 
 // ---- builtins ----
@@ -737,4 +796,16 @@ func (vc *VC) specIsLocal(spec *FuncSpec) bool {
 	}
 	pos := vc.Eng.Prog.Fset.Position(fn.Pos())
 	return filepath.Dir(pos.Filename) == filepath.Dir(spec.File)
+}
+
+// specAppliesHere: a contract may restrict itself to the verification of
+// functions whose name has a given prefix (flag only_for=<prefix>) - used for
+// lock-invariant contracts on sync primitives, which describe one particular
+// mutex and must not leak into proofs about other mutexes of the package.
+func (vc *VC) specAppliesHere(spec *FuncSpec) bool {
+	p := spec.Flags["only_for"]
+	if p == "" {
+		return true
+	}
+	return strings.HasPrefix(FuncName(vc.Fn), p)
 }
